@@ -40,7 +40,7 @@ def _work(item):
     import faulthandler
     # last resort: a worker stuck in native code for 20 min (quick) / 3 h (thorough) kills itself; the pool is then
     # broken and run_items re-runs the unfinished items one by one
-    faulthandler.dump_traceback_later(10800 if thorough else 1200, exit=True)
+    faulthandler.dump_traceback_later(10800 if thorough else 420, exit=True)
     t0 = time.time()
     _PORTFOLIO_SPENT[0] = 0.0
     res = V.verify_one(_ENG, key, ctx, timeout_ms=timeout_ms, alias=alias)
@@ -156,7 +156,7 @@ def _died(item, why):
             "obligations": [], "wall": 0.0}
 
 
-def run_items(items, jobs=None, item_timeout=3600):
+def run_items(items, jobs=None, item_timeout=780):
     """every item in its own task of a process pool.  A worker that dies (solver crash, out of memory) breaks the pool:
     the unfinished items are then re-run one by one in fresh single-worker pools, so that a crash costs one item (a
     checker error for that function), never a hang."""
